@@ -136,6 +136,15 @@ func (w *World) recoverRepo(repo string, op Op) bool {
 			s.open, s.endedHow, s.tainted = false, "disk fault", false
 		}
 	}
+	// a request that opens a session (also a mount that falls back to one, or a manifest push, which uses one internally)
+	// may have evicted others before it failed
+	if op.K == "blob" || op.K == "man" || op.K == "sess" {
+		for _, s := range w.m.sess {
+			if s.repo == repo && s.open {
+				s.maybeGone = true
+			}
+		}
+	}
 	// what the operation was about
 	touched := map[string]bool{}
 	opRepo := ""
@@ -183,14 +192,11 @@ func (w *World) recoverRepo(repo string, op Op) bool {
 				if !(v.accept || v.either) {
 					return false
 				}
-				if v.tag != "" {
-					// nobody acknowledged the push: what is visible now may be gone after the next reload of index.json, and
-					// the model has no tag that may or may not exist
-					return false
-				}
-				w.m.applyManifestPut(repo, v, body, w.now())
-				mr.mans[v.digest].maybeGone = true
-				mr.blobs[v.digest].maybeGone = true
+				// nobody acknowledged the push: what is visible now (from memory) may be gone after the next reload of
+				// index.json, together with the protection it gives to what it refers to. The model has neither a tag nor a
+				// retention root that may or may not exist: the repository keeps the old behaviour (no claims)
+				_ = body
+				return false
 			}
 		}
 	}
